@@ -4,7 +4,7 @@
    reference model. *)
 From Coq Require Import List Bool Ascii String ZArith Lia.
 From FM Require Import Base.Result Base.Str Base.AstOp Model.Ast Model.FM Model.PFM Model.Queries
-     Format.Xml Format.Ref Proofs.QueriesFacts Proofs.JsonFacts Proofs.FamaFacts Proofs.AfmFacts.
+     Format.Xml Format.Ref Proofs.QueriesFacts Proofs.C16Facts Proofs.JsonFacts Proofs.FamaFacts Proofs.AfmFacts.
 Import ListNotations.
 Local Open Scope list_scope.
 
@@ -168,7 +168,7 @@ Qed.
 
 (* ------------------------------------------------------------------ the tree *)
 Definition feat_stmt (ch : fama_choices) (f : feature) : Prop :=
-  fama_feature_ok f = true ->
+  fama_feature_ok f = true -> rels_nonempty f ->
   forall tag here parent seen,
     fresh (names f) seen ->
     fama_parse_feature (fama_feature ch tag f) here parent seen
@@ -179,30 +179,33 @@ Lemma fama_gor_kids ch ct here k tag tl (A B : Z -> Z -> Z) :
   (forall j mn mx seen, fama_gor ct here k j tl mn mx seen = Ok ([], A mn mx, B mn mx, seen)) ->
   forall cs, Forall (feat_stmt ch) cs ->
   forallb fama_feature_ok cs = true ->
+  Forall rels_nonempty cs ->
   forall j mn mx seen,
     fresh (cnames cs) seen ->
     fama_gor ct here k j (map (fama_feature ch tag) cs ++ tl) mn mx seen
     = Ok (an_goc here k j cs, A mn mx, B mn mx, rev (cnames cs) ++ seen).
 Proof.
-  intros Htag Htl cs HF. induction HF as [|c cs Hc _ IH]; intros Hok j mn mx seen Hfr.
+  intros Htag Htl cs HF. induction HF as [|c cs Hc _ IH]; intros Hok Hne j mn mx seen Hfr.
   - cbn [map app cnames flat_map rev]. apply Htl.
   - cbn [forallb] in Hok. apply andb_true_iff in Hok. destruct Hok as [Hokc Hokcs].
+    inversion Hne as [|? ? Hnec Hnecs]; subst.
     rewrite cnames_cons in Hfr. apply fresh_app in Hfr. destruct Hfr as [Hfc Hfcs].
     cbn [map app fama_gor]. rewrite tag_is_feature, Htag.
-    rewrite (Hc Hokc tag _ _ seen Hfc).
-    rewrite (IH Hokcs (S j) mn mx _ Hfcs).
+    rewrite (Hc Hokc Hnec tag _ _ seen Hfc).
+    rewrite (IH Hokcs Hnecs (S j) mn mx _ Hfcs).
     rewrite an_goc_cons, cnames_cons, rev_app_distr, app_assoc. reflexivity.
 Qed.
 
 Lemma fama_gor_rel ch here k mn mx cs seen :
   Forall (feat_stmt ch) cs ->
   forallb fama_feature_ok cs = true ->
+  Forall rels_nonempty cs ->
   fresh (cnames cs) seen ->
   fama_gor (low_kid_tag (fama_single ch cs)) here k 0%nat
            (x_children (fama_rel ch (Relation mn mx cs))) 0%Z 0%Z seen
   = Ok (an_goc here k 0%nat cs, mn, mx, rev (cnames cs) ++ seen).
 Proof.
-  intros HF Hok Hfr. cbn [fama_rel]. cbv zeta. cbn [x_children].
+  intros HF Hok Hne Hfr. cbn [fama_rel]. cbv zeta. cbn [x_children].
   set (single := fama_single ch cs).
   destruct (fc_card_last ch) eqn:Hlast.
   - apply (fama_gor_kids ch _ here k (fama_kid_tag ch single) [fama_card ch mn mx]
@@ -225,7 +228,8 @@ Lemma fama_go_rel_step ch here k mn mx cs rest seen :
   match fama_gor (low_kid_tag (fama_single ch cs)) here k 0%nat
                  (x_children (fama_rel ch (Relation mn mx cs))) 0%Z 0%Z seen with
   | Err e => Err e
-  | Ok (pcs, a, b, seen') =>
+  | Ok ([], _, _, _) => Err FlamaException
+  | Ok ((_ :: _) as pcs, a, b, seen') =>
       match fama_go here (S k) rest seen' with
       | Err e => Err e
       | Ok (prs, s3) => Ok (PRelation (PPath here) a b pcs :: prs, s3)
@@ -245,18 +249,24 @@ Qed.
 Lemma fama_go_rels ch here rs :
   Forall (rel_stmt ch) rs ->
   forallb (fun r => match r with Relation _ _ cs => forallb fama_feature_ok cs end) rs = true ->
+  Forall (fun r => r_children r <> [] /\ Forall rels_nonempty (r_children r)) rs ->
   forall k seen,
     fresh (rnames rs) seen ->
     fama_go here k (map (fama_rel ch) rs) seen = Ok (an_go here k rs, rev (rnames rs) ++ seen).
 Proof.
-  intros HF. induction HF as [|r rs Hr _ IH]; intros Hok k seen Hfr.
+  intros HF. induction HF as [|r rs Hr _ IH]; intros Hok Hne k seen Hfr.
   - reflexivity.
   - destruct r as [mn mx cs]. cbn [rel_stmt] in Hr.
     cbn [forallb] in Hok. apply andb_true_iff in Hok. destruct Hok as [Hokc Hokrs].
+    inversion Hne as [|? ? [Hnec Hnecs] Hners]; subst. cbn [r_children] in Hnec, Hnecs.
     rewrite rnames_cons in Hfr. apply fresh_app in Hfr. destruct Hfr as [Hfc Hfrs].
     cbn [map]. rewrite fama_go_rel_step.
-    rewrite (fama_gor_rel ch here k mn mx cs seen Hr Hokc Hfc).
-    rewrite (IH Hokrs (S k) _ Hfrs).
+    rewrite (fama_gor_rel ch here k mn mx cs seen Hr Hokc Hnecs Hfc).
+    destruct (an_goc here k 0%nat cs) as [|pc pcs] eqn:Ean.
+    { exfalso. apply Hnec. apply length_zero_iff_nil.
+      rewrite <- (an_goc_length here k cs 0%nat), Ean. reflexivity. }
+    rewrite <- Ean.
+    rewrite (IH Hokrs Hners (S k) _ Hfrs).
     rewrite an_go_cons, rnames_cons, rev_app_distr, app_assoc. reflexivity.
 Qed.
 
@@ -278,14 +288,15 @@ Qed.
 Lemma fama_feature_denotes ch : forall f, feat_stmt ch f.
 Proof.
   apply (feature_ind2 (feat_stmt ch) (rel_stmt ch)).
-  - intros i rs IH Hok tag here parent seen Hfr.
+  - intros i rs IH Hok Hne tag here parent seen Hfr.
+    apply rels_nonempty_inv in Hne.
     cbn [fama_feature_ok] in Hok. apply andb_true_iff in Hok. destruct Hok as [Hinfo Hrs].
     apply finfo_default in Hinfo.
     rewrite names_eq in Hfr |- *. apply fresh_cons in Hfr. destruct Hfr as [Hn Hfr].
     rewrite fama_feature_eq, fama_parse_feature_eq. cbn [sassoc].
     change (String.eqb "name" "name") with true. cbv iota zeta.
     apply mem_not_In in Hn. rewrite Hn.
-    rewrite (fama_go_rels ch here rs IH Hrs 0%nat _ Hfr).
+    rewrite (fama_go_rels ch here rs IH Hrs Hne 0%nat _ Hfr).
     assert (Hat : f_attrs i = []) by (rewrite Hinfo; reflexivity).
     rewrite annotate_eq, Hat, <- Hinfo. cbn [map rev]. rewrite <- app_assoc. reflexivity.
   - intros a b cs IH. exact IH.
@@ -354,14 +365,21 @@ Proof.
 Qed.
 
 (* ------------------------------------------------------------------ the document *)
-Theorem fama_denotes : forall ch m, fama_ok m = true -> fama_read (fama_emit ch m) = Ok (annotate_fm m).
+(* Since the reader rejects a binaryRelation / setRelation without child features, the statement needs the
+   hypothesis [rels_nonempty (root m)] (C16Facts.v: every relation of the tree has a child).  The statement before
+   that change was
+     Theorem fama_denotes : forall ch m, fama_ok m = true -> fama_read (fama_emit ch m) = Ok (annotate_fm m).
+   and is refuted by [fama_denotes_old_false] below ([fama_ok] allows a relation without children); the hypothesis
+   is also necessary ([fama_denotes_needs_nonempty]). *)
+Theorem fama_denotes : forall ch m, fama_ok m = true -> rels_nonempty (root m) ->
+  fama_read (fama_emit ch m) = Ok (annotate_fm m).
 Proof.
-  intros ch m Hok. unfold fama_ok in Hok.
+  intros ch m Hok Hne. unfold fama_ok in Hok.
   apply andb_true_iff in Hok. destruct Hok as [Hok Hctcs].
   apply andb_true_iff in Hok. destruct Hok as [Hfeat Hnd].
   rewrite fama_read_eq. unfold fama_emit. cbn [x_children fama_doc].
   rewrite tag_is_feature, lower_feature. change (String.eqb "feature" "feature") with true. cbv iota.
-  rewrite (fama_feature_denotes ch (root m) Hfeat).
+  rewrite (fama_feature_denotes ch (root m) Hfeat Hne).
   - rewrite (fama_doc_ctcs ch (names (root m)) _ _ ) with (acc := []); [reflexivity| |exact Hctcs].
     intros n Hn. rewrite app_nil_r. apply in_rev. rewrite rev_involutive. exact Hn.
   - split; [apply nodupb_NoDup; exact Hnd|]. intros n _ [].
@@ -377,6 +395,16 @@ Definition ref_m1 : fm :=
   {| root := Feature (mk_info "Root")
        [Relation 1 1 [Feature (mk_info "A") [Relation 0 1 [leaf "A1"]; Relation 1 2 [leaf "A2"; leaf "A3"]]];
         Relation 0 1 [leaf "B"];
+        Relation (-3) 7 [leaf "G"];
+        Relation 1 3 [leaf "C"; Feature (mk_info "D") [Relation 1 1 [leaf "E"]]; leaf "F"]];
+     ctcs := [ {| c_name := "c1"; c_ast := bin REQUIRES (term "A1") (term "F") |};
+               {| c_name := "c2"; c_ast := bin EXCLUDES (term "E") (term "Root") |} ] |}.
+
+(* [ref_m1] as it was before the reader rejected a relation without child features: the third relation is empty *)
+Definition ref_m1_empty : fm :=
+  {| root := Feature (mk_info "Root")
+       [Relation 1 1 [Feature (mk_info "A") [Relation 0 1 [leaf "A1"]; Relation 1 2 [leaf "A2"; leaf "A3"]]];
+        Relation 0 1 [leaf "B"];
         Relation (-3) 7 [];
         Relation 1 3 [leaf "C"; Feature (mk_info "D") [Relation 1 1 [leaf "E"]]; leaf "F"]];
      ctcs := [ {| c_name := "c1"; c_ast := bin REQUIRES (term "A1") (term "F") |};
@@ -387,6 +415,10 @@ Definition ref_m2 : fm :=
 
 Example ref_m1_ok : fama_ok ref_m1 = true.
 Proof. vm_compute. reflexivity. Qed.
+Example ref_m1_nonempty : rels_nonempty (root ref_m1).
+Proof. repeat constructor; discriminate. Qed.
+Example ref_m2_nonempty : rels_nonempty (root ref_m2).
+Proof. constructor. Qed.
 
 Example fama_denotes_m1 :
   map (fun ch => fama_read (fama_emit ch ref_m1)) ref_all_choices
@@ -399,4 +431,32 @@ Example fama_denotes_m2 :
   = map (fun _ => Ok (annotate_fm ref_m2)) ref_all_choices.
 Proof. vm_compute. split; reflexivity. Qed.
 
+Example fama_denotes_m1_by_theorem :
+  forall ch, fama_read (fama_emit ch ref_m1) = Ok (annotate_fm ref_m1).
+Proof. intros ch. exact (fama_denotes ch ref_m1 ref_m1_ok ref_m1_nonempty). Qed.
+
+(* the added hypothesis is necessary: a model that is read back has no relation without children *)
+Theorem fama_denotes_needs_nonempty : forall ch m,
+  fama_read (fama_emit ch m) = Ok (annotate_fm m) -> rels_nonempty (root m).
+Proof.
+  intros ch m Hr. apply fama_read_nonempty in Hr. unfold annotate_fm in Hr. cbn [proot] in Hr.
+  exact (rels_nonempty_p_annotate _ _ _ Hr).
+Qed.
+
+(* the statement without the hypothesis is false: a reference model of the fragment with a relation without
+   children is rejected by the reader, whatever the surface choices of the emitter *)
+Example fama_denotes_old_false :
+  fama_ok ref_m1_empty = true
+  /\ map (fun ch => fama_read (fama_emit ch ref_m1_empty)) ref_all_choices
+     = map (fun _ => Err FlamaException) ref_all_choices
+  /\ ~ rels_nonempty (root ref_m1_empty).
+Proof.
+  split; [vm_compute; reflexivity|]. split; [vm_compute; reflexivity|].
+  intros H. apply rels_nonempty_inv in H.
+  inversion H as [|? ? _ H1]; subst. inversion H1 as [|? ? _ H2]; subst.
+  inversion H2 as [|? ? [Hne _] _]; subst. apply Hne. reflexivity.
+Qed.
+
 Print Assumptions fama_denotes.
+Print Assumptions fama_denotes_needs_nonempty.
+Print Assumptions fama_denotes_old_false.
